@@ -195,9 +195,10 @@ def Brk.needsIndent (b : Brk) (tooLong force indented : Bool) : Bool :=
 /-- `needs_return(line_is_too_long, force_break, already_indented)` -/
 def Brk.needsReturn (b : Brk) (tooLong force indented : Bool) : Bool :=
   match b with
-  | .lineStart | .spaceOrReturn => true
+  | .lineStart => true
   | .maybeReturn => tooLong || force
-  | .none | .indentedBreak | .spaceOrIndent | .maybeIndent | .startBlock => false
+  -- (`SpaceOrReturn` returned `true` before /repo 506c2fd: see `layout_action_spaceOrReturn_fixed`)
+  | .none | .indentedBreak | .spaceOrIndent | .maybeIndent | .startBlock | .spaceOrReturn => false
   | .spaceOrIndentIfNecessary | .indentIfNecessary => false
   | .returnOrIndent => indented
 
